@@ -21,7 +21,7 @@ ASSUMPTIONS = ["vi -s -e on a pipe behaves like typed ex commands", "files are N
 
 
 def prepare(build, tier):
-    return {"vi": build.vi_plain()}
+    return {"vi": build.vi_plain(), "shim": build.shim("fishim")}
 
 
 def budget(tier):
@@ -107,7 +107,12 @@ def case(draw):
             if sym == 3:
                 b = a
     prev = draw(st.sampled_from(["none", "shorter", "equal", "longer", "much_longer"]))
-    return {"orig": orig, "mode": mode, "a": a, "b": b, "sym": sym, "prev": prev}
+    c = {"orig": orig, "mode": mode, "a": a, "b": b, "sym": sym, "prev": prev}
+    if mode in ("w", "range") and draw(st.integers(0, 3)) == 0:
+        # short counts from write(2) - legal at any time - must be retried from where the previous call stopped
+        idx = sorted(set(draw(st.lists(st.integers(1, 12), min_size=1, max_size=4))))
+        c["short"] = [[i, draw(st.sampled_from([1, 3, 100, 999, 1000, 4000]))] for i in idx]
+    return c
 
 
 def strategy(tier):
@@ -208,8 +213,13 @@ def run_case(env, c):
             os.remove(os.path.join(d, "out"))
         except OSError:
             pass
-    r = runner.run_editor(env.paths["vi"], ["-s", "-e", "f"], cmd + runner.EX_TRAILER, d, want_stats=False)
+    envx = None
+    if c.get("short"):
+        envx = {"LD_PRELOAD": env.paths["shim"], "NVFI_PATH": "out", "NVFI_PLAN": ",".join("%d:S%d" % (i, k) for i, k in c["short"])}
+    r = runner.run_editor(env.paths["vi"], ["-s", "-e", "f"], cmd + runner.EX_TRAILER, d, want_stats=False, env_extra=envx)
     nt, cl = _nontrivial(c, expect, prevlen)
+    if c.get("short"):
+        cl.append("short_write_counts")
     cl.append("mode_" + mode)
     if r.crashed() or r.timeout:
         return Outcome(False, nt, cl, detail={"why": "editor crashed or hung", "sig": r.signature()})
